@@ -201,6 +201,14 @@ func rrHandles(brr *bal_slb.BalanceRR) map[string][]*backend.BfeBackend {
 	return m
 }
 
+func rrOrder(brr *bal_slb.BalanceRR) []string {
+	var out []string
+	for j := 0; j < brr.Len(); j++ {
+		out = append(out, brr.VerifBackendAt(j).AddrInfo)
+	}
+	return out
+}
+
 func rrCredits(brr *bal_slb.BalanceRR) []string {
 	var out []string
 	for j := 0; j < brr.Len(); j++ {
@@ -240,7 +248,7 @@ func mkReq(rs reqSpec) (*bfe_basic.Request, error) {
 		sb.WriteString(h[0] + ": " + h[1] + "\r\n")
 	}
 	sb.WriteString("\r\n")
-	hr, err := bfe_http.ReadRequest(bfe_bufio.NewReader(strings.NewReader(sb.String())), 65536)
+	hr, err := bfe_http.ReadRequest(bfe_bufio.NewReaderSize(strings.NewReader(sb.String()), 1024), 65536)
 	if err != nil {
 		return nil, err
 	}
